@@ -823,6 +823,22 @@ def _numops_only(ctx):
     return o
 
 
+from freshnames import rule_freshnames  # noqa: E402
+
+for _pid in ("C02", "C16"):
+    PROPERTIES[_pid]["rules"] += [("FRESHNAMES", lambda ctx: rule_freshnames(ctx.lib))]
+    PROPERTIES[_pid]["explanation"] += " (FRESHNAMES) The first character of generated type-variable names (decoded from the format template) is not an identifier-start character according to the tokenizer's own predicate, so no user type parameter can be the solver's variable."
+
+from intern import rule_intern  # noqa: E402
+
+for _pid in ("C13", "C09"):
+    PROPERTIES[_pid]["rules"] += [("INTERN", lambda ctx: rule_intern(ctx.lib))]
+    PROPERTIES[_pid]["explanation"] += " (INTERN) The VM tables that de-duplicate entries (prefixes, unit information, functions) look an entry up by the whole value or its destructured key, never by a projection shared by different values."
+
+for _pid in ("C16", "C02"):
+    PROPERTIES[_pid]["rules"] += [("TRAV.type_queries", trav("type_queries"))]
+    PROPERTIES[_pid]["explanation"] += " (TRAV type_queries) The functions that answer a question about a whole type (type_variables, contains, instantiate) visit every Type payload of every variant, so generalisation keeps the `Dim` bound of a variable wherever it occurs (e.g. only in a function type's return type)."
+
 NOT_APPLICABLE = {
     "C03": "numerical agreement of conversion factors over 500 units is a statement about run-time values; no structural clause is a necessary condition that is not already covered under C04/C11/C12 (static analysis cannot bound the arithmetic)",
     "C14": "a statement about the decimal rendering of every f64 under every format setting; the code delegates to pretty_dtoa/num_format and no structural clause of Number::pretty_print_with_dtoa_config can be decided without evaluating it",
